@@ -21,7 +21,7 @@ MECH = {'SingleCreator': 'goc', 'OneStudyPerName': 'goc', 'SetupAtomic': 'setup'
 def detect_variant() -> Dict[str, bool]:
   """Runs one worker alone and reads off its events whether the three check-then-act mechanisms are
   coded without a lock (True = as at the pinned commit).  Also the hook self-test."""
-  cfg = sampling.RunConfig(nw=1, groups=[1], n=2, ops=['done'], evo=True, policy='rr', seed=0)
+  cfg = sampling.RunConfig(nw=1, groups=['g'], n=2, ops=['done'], evo=True, policy='rr', seed=0)
   r = sampling.run_scheduled(cfg)
   names = [e['e'] for e in r.events]
   # only what the detection itself needs: anything else that is missing or wrong is judged by TLC later
@@ -42,7 +42,10 @@ def variant_env(v: Dict[str, bool], commit_points: bool = True) -> Dict[str, str
 # ------------------------------------------------------------------------------ C -> S
 def trace_of(r: 'sampling.RunResult') -> dict:
   ev = [dict(e) for e in r.events]
-  if r.status == 'done' and r.final and 'error' not in r.final:
+  if r.status == 'done' and r.final and r.final.get('unnamed'):
+    f = r.final
+    ev.append({'w': 0, 'e': 'final_unnamed', 'nprop': f['nprop'], 'nfb': f['nfb'], 'size': f['pop']})
+  elif r.status == 'done' and r.final and 'error' not in r.final:
     f = r.final
     ev.append({'w': 0, 'e': 'final', 'ids': f['ids'], 'status': f['status'], 'inf': f['inf'],
                'completed': f['completed'], 'pending': f['pending'], 'infeasible': f['infeasible'],
@@ -112,6 +115,33 @@ def compact(ev: dict) -> dict:
   return {k: v for k, v in ev.items() if k in ('w', 'e') or v not in (0, '', None)}
 
 
+FEATURES = ('group_0', 'group_empty_str', 'group_none', 'falsy_group_shared', 'lookalike_groups',
+            'num_examples_0', 'num_examples_1', 'num_examples_none', 'name_empty', 'name_none')
+
+
+def features(cfg) -> List[str]:
+  """Boundary values of the configuration an execution exercised."""
+  g = list(cfg.groups)
+  out = []
+  if any(x == 0 and isinstance(x, int) for x in g):
+    out.append('group_0')
+  if '' in g:
+    out.append('group_empty_str')
+  if None in g:
+    out.append('group_none')
+  if any(g.count(x) > 1 for x in g if x is not None and not x):
+    out.append('falsy_group_shared')
+  if any(str(a) == str(b) and type(a) is not type(b) for a in g for b in g if a is not None and b is not None):
+    out.append('lookalike_groups')          # 0 and '0', 1 and '1': different groups
+  if cfg.n in (0, 1):
+    out.append(f'num_examples_{cfg.n}')
+  if cfg.n is None:
+    out.append('num_examples_none')
+  if cfg.name_kind != 'unique':
+    out.append('name_' + cfg.name_kind)
+  return out
+
+
 def judge(chk, runs, verdicts, variant, origin: str):
   """Turns TLC's verdicts into check results."""
   for r in runs:
@@ -122,6 +152,8 @@ def judge(chk, runs, verdicts, variant, origin: str):
     if r.crash:
       chk.count('worker_crash')
     if v[0] == 'ACCEPT':
+      for feat in features(r.cfg):
+        chk.count('accepted_with_' + feat)
       chk.traces += 1
       chk.distinct_case(shape(r))
       if r.status == 'done':
@@ -194,11 +226,32 @@ def steps_of(behaviour) -> List[tuple]:
   return out
 
 
+GROUP_IDS = [0, '', 1, 'g', '1', '0', 2, 'h']      # legal group ids incl. the falsy ones and look-alikes
+
+
+def declare_groups(pattern: Sequence[int], rng: random.Random) -> List[Any]:
+  """Concrete group ids for an abstract group assignment: equal numbers -> the same id, different numbers
+  -> different ids (drawn from GROUP_IDS); a worker that is alone in its group may pass None instead (the
+  per-thread default)."""
+  pool = list(GROUP_IDS)
+  rng.shuffle(pool)
+  ids: Dict[int, Any] = {}
+  out = []
+  for g in pattern:
+    if g not in ids:
+      ids[g] = None if list(pattern).count(g) == 1 and rng.random() < 0.3 else pool[len(ids) % len(pool)]
+    out.append(ids[g])
+  return out
+
+
 def run_config_of(cf: dict, seed: int) -> 'sampling.RunConfig':
-  groups = list(cf['groups'])
-  return sampling.RunConfig(nw=int(cf['nw']), groups=groups, n=int(cf['n']), ops=sorted(cf['ops']),
+  rng = random.Random(f'{seed}/declare')
+  named = bool(cf.get('named', True))
+  return sampling.RunConfig(nw=int(cf['nw']), groups=declare_groups(list(cf['groups'])[:int(cf['nw'])], rng),
+                            n=int(cf['n']), ops=sorted(cf['ops']),
                             evo=bool(cf['evo']), serial_start=bool(cf['warm']), mode='hook',
-                            policy='forced', seed=seed)
+                            policy='forced', seed=seed,
+                            name_kind=rng.choice(['unique', 'unique', 'empty']) if named else 'none')
 
 
 # ------------------------------------------------------------------------------ orchestration
@@ -345,11 +398,15 @@ def scheduled_runs(chk, *, mode: str, num: int, seed: int, crews: Sequence[int],
   runs = []
   for i in range(num):
     nw = rng.choice(list(crews))
+    n = rng.choice([0, 1, 1, 2, 3, 3, 4, 5, None])
+    ops = list(rng.choice(OPSETS))
+    if n is None and 'done_end' not in ops:
+      ops.append('done_end')            # somebody has to end an unbounded loop
     rc = sampling.RunConfig(
-        nw=nw, groups=rng.choice(GROUPS[nw]), n=rng.choice([1, 2, 3, 3, 4, 5]), ops=rng.choice(OPSETS),
+        nw=nw, groups=declare_groups(rng.choice(GROUPS[nw]), rng), n=n, ops=ops,
         evo=rng.random() < 0.5, serial_start=rng.random() < 0.65,
         policy=rng.choice(['random', 'pct', 'rr', 'sticky']), seed=seed * 1000003 + i, mode=mode,
-        probe_p=probe_p)
+        probe_p=probe_p, name_kind=rng.choice(['unique', 'unique', 'unique', 'empty', 'none']))
     r = sampling.run_scheduled(rc, quiet=quiet)
     r.name = f'{mode}-{i}'
     runs.append(r)
@@ -464,6 +521,9 @@ def run(chk):
     for e in ALL_EVENTS:
       chk.require(seen.get(e, 0) > 0, f'vacuous: no accepted execution contains the event {e}')
     c = chk.counters
+    for feat in FEATURES:
+      chk.require(c.get('accepted_with_' + feat, 0) > 0 or (feat == 'lookalike_groups' and not thorough),
+                  f'vacuous: no accepted execution with configuration feature {feat}')
     chk.require(c.get('negative_probes_blocked', 0) > 0, 'vacuous: no negative probe in forced schedules')
     chk.require(c.get('hook_probes_blocked', 0) > 0, 'vacuous: no negative probe in scheduled runs')
     chk.require(c.get('forced_steps', 0) > 0, 'vacuous: no forced step')
